@@ -1,6 +1,10 @@
 package variants
 
-import "github.com/pip-services3-gox/pip-services3-commons-gox/errors"
+import (
+	"math"
+
+	"github.com/pip-services3-gox/pip-services3-commons-gox/errors"
+)
 
 type IVariantOperationsOverrides interface {
 	Convert(value *Variant, newType VariantType) (*Variant, error)
@@ -217,9 +221,15 @@ func (c *AbstractVariantOperations) Div(
 	// Performs operation.
 	switch value1.Type() {
 	case Integer:
+		if value2.AsInteger() == 0 {
+			return nil, errors.NewUnsupportedError("", "DIV_BY_ZERO", "Division by zero in operation '/'")
+		}
 		result.SetAsInteger(value1.AsInteger() / value2.AsInteger())
 		return result, nil
 	case Long:
+		if value2.AsLong() == 0 {
+			return nil, errors.NewUnsupportedError("", "DIV_BY_ZERO", "Division by zero in operation '/'")
+		}
 		result.SetAsLong(value1.AsLong() / value2.AsLong())
 		return result, nil
 	case Float:
@@ -260,9 +270,15 @@ func (c *AbstractVariantOperations) Mod(
 	// Performs operation.
 	switch value1.Type() {
 	case Integer:
+		if value2.AsInteger() == 0 {
+			return nil, errors.NewUnsupportedError("", "DIV_BY_ZERO", "Division by zero in operation '%'")
+		}
 		result.SetAsInteger(value1.AsInteger() % value2.AsInteger())
 		return result, nil
 	case Long:
+		if value2.AsLong() == 0 {
+			return nil, errors.NewUnsupportedError("", "DIV_BY_ZERO", "Division by zero in operation '%'")
+		}
 		result.SetAsLong(value1.AsLong() % value2.AsLong())
 		return result, nil
 	}
@@ -288,11 +304,8 @@ func (c *AbstractVariantOperations) Pow(
 
 	// Performs operation.
 	switch value1.Type() {
-	case Integer:
-	case Long:
-	case Float:
-	case Double:
-		// Converts second operant to the type of the first operand.
+	case Integer, Long, Float, Double:
+		// Converts both operands to double.
 		var err error
 		value1, err = c.Overrides.Convert(value1, Double)
 		if err != nil {
@@ -304,7 +317,7 @@ func (c *AbstractVariantOperations) Pow(
 			return nil, err
 		}
 
-		result.SetAsDouble(value1.AsDouble() * value2.AsDouble())
+		result.SetAsDouble(math.Pow(value1.AsDouble(), value2.AsDouble()))
 		return result, nil
 	}
 
@@ -456,9 +469,15 @@ func (c *AbstractVariantOperations) Lsh(
 	// Performs operation.
 	switch value1.Type() {
 	case Integer:
+		if value2.AsInteger() < 0 {
+			return nil, errors.NewUnsupportedError("", "NEGATIVE_SHIFT", "Negative shift count in operation '<<'")
+		}
 		result.SetAsInteger(value1.AsInteger() << value2.AsInteger())
 		return result, nil
 	case Long:
+		if value2.AsInteger() < 0 {
+			return nil, errors.NewUnsupportedError("", "NEGATIVE_SHIFT", "Negative shift count in operation '<<'")
+		}
 		result.SetAsLong(value1.AsLong() << value2.AsInteger())
 		return result, nil
 	}
@@ -493,9 +512,15 @@ func (c *AbstractVariantOperations) Rsh(
 	// Performs operation.
 	switch value1.Type() {
 	case Integer:
+		if value2.AsInteger() < 0 {
+			return nil, errors.NewUnsupportedError("", "NEGATIVE_SHIFT", "Negative shift count in operation '>>'")
+		}
 		result.SetAsInteger(value1.AsInteger() >> value2.AsInteger())
 		return result, nil
 	case Long:
+		if value2.AsInteger() < 0 {
+			return nil, errors.NewUnsupportedError("", "NEGATIVE_SHIFT", "Negative shift count in operation '>>'")
+		}
 		result.SetAsLong(value1.AsLong() >> value2.AsInteger())
 		return result, nil
 	}
@@ -974,10 +999,16 @@ func (c *AbstractVariantOperations) GetElement(
 	index := int(value2.AsInteger())
 
 	if value1.Type() == Array {
+		if index < 0 || index >= value1.Length() {
+			return nil, errors.NewUnsupportedError("", "INDEX_OUT_OF_RANGE", "Index is out of range in operation '[]'")
+		}
 		return value1.GetByIndex(index), nil
 	} else if value1.Type() == String {
 		runes := []rune(value1.AsString())
-		result.SetAsString(string(runes[value2.AsInteger()]))
+		if index < 0 || index >= len(runes) {
+			return nil, errors.NewUnsupportedError("", "INDEX_OUT_OF_RANGE", "Index is out of range in operation '[]'")
+		}
+		result.SetAsString(string(runes[index]))
 		return result, nil
 	}
 
